@@ -18,6 +18,16 @@ fn forest(p: Pairs<'_, &str>) -> String {
     }
     s
 }
+/// C08: only the failure report (position, expected, unexpected) or ok/stuck
+fn run_vm_report(rules: &[OptimizedRule], rule: &str, input: &str) -> String {
+    use pest::error::{ErrorVariant, InputLocation};
+    let vm = pest_vm::Vm::new(rules.to_vec());
+    match catch(|| match vm.parse(rule, input) {
+        Ok(_) => "ok".to_string(),
+        Err(e) => { let pos = match e.location { InputLocation::Pos(p) => p, InputLocation::Span((a, _)) => a };
+            match &e.variant { ErrorVariant::ParsingError { positives, negatives } => format!("err {} [{}] [{}]", pos, positives.join(","), negatives.join(",")), _ => "custom".into() } }
+    }) { Ok(s) => s, Err(m) => if m.contains("called on empty stack") { "stuck".into() } else { "panic".into() } }
+}
 fn run_vm(rules: &[OptimizedRule], rule: &str, input: &str) -> String {
     let vm = pest_vm::Vm::new(rules.to_vec());
     match catch(|| match vm.parse(rule, input) { Ok(p) => format!("ok{}", forest(p)), Err(_) => "fail".to_string() }) {
@@ -30,7 +40,8 @@ const EXTRAS: bool = cfg!(feature = "extras");
 fn eval_line(l: &str, stats: &mut BTreeMap<String, u64>) -> (String, String) {
     let bad = || ("bad-op".to_string(), "ok".to_string());
     let mut it = l.splitn(3, ' ');
-    if it.next() != Some("D") { return bad(); }
+    let kind = it.next().unwrap_or("");
+    if kind != "D" && kind != "S" { return bad(); }
     let _ex = it.next();
     let top = match it.next().and_then(parse_sexps) { Some(t) if t.len() >= 3 => t, _ => return bad() };
     let rules: Vec<Rule> = match rules_of(&top[0]) { Some(r) => r, None => return bad() };
@@ -40,10 +51,10 @@ fn eval_line(l: &str, stats: &mut BTreeMap<String, u64>) -> (String, String) {
     let nolist = catch(|| pest_meta::optimizer::verif::optimize_without_list(rules.clone())).ok();
     let mut outs = vec![]; let mut lister = vec![];
     for (i, inp) in inputs.iter().enumerate() {
-        let r = run_vm(&opt, &rule, inp);
+        let r = if kind == "S" { run_vm_report(&opt, &rule, inp) } else { run_vm(&opt, &rule, inp) };
         *stats.entry(r.split(' ').next().unwrap().split('(').next().unwrap().to_string()).or_default() += 1;
         if r.len() > 8 { *stats.entry("ok_with_pairs".into()).or_default() += 1; }
-        if let Some(nl) = &nolist { let r2 = run_vm(nl, &rule, inp); if r2 != r { lister.push(format!("{}={}", i, hexs(&r2))); } }
+        if let Some(nl) = &nolist { let r2 = if kind == "S" { run_vm_report(nl, &rule, inp) } else { run_vm(nl, &rule, inp) }; if r2 != r { lister.push(format!("{}={}", i, hexs(&r2))); } }
         outs.push(r);
     }
     (outs.join(" | "), if lister.is_empty() { "ok".into() } else { format!("LISTER {}", lister.join(" ")) })
@@ -72,7 +83,7 @@ fn main() {
                 for _ in 0..20 { let n = rng.range(len + 1, len + 6); let mut s = String::new(); for _ in 0..n { s.push_str(*rng.pick(&alpha[..])); } inputs.push(s); }
                 let starts: Vec<&Rule> = rules.iter().filter(|r| r.name != "WHITESPACE" && r.name != "COMMENT").take(3).collect();
                 for r in starts {
-                    let l = format!("D {} {} {} {}", EXTRAS as u8, srules, r.name, inputs.iter().map(|s| hexs(s)).collect::<Vec<_>>().join(" "));
+                    let l = format!("{} {} {} {} {}", if std::env::args().nth(5).as_deref() == Some("C08") { "S" } else { "D" }, EXTRAS as u8, srules, r.name, inputs.iter().map(|s| hexs(s)).collect::<Vec<_>>().join(" "));
                     let (i, v) = eval_line(&l, &mut stats);
                     ninputs += inputs.len() as u64;
                     for (k, res) in i.split(" | ").enumerate() { if res.len() > 8 || (res == "fail" && inputs.get(k).map_or(false, |x| !x.is_empty())) { distinct.insert((gi, r.name.clone(), k)); } }
